@@ -1,6 +1,7 @@
+import JaqVerif.Props.C09
+import JaqVerif.Val.Arith
 import JaqVerif.Val.Basic
 import JaqVerif.Val.Float
 import JaqVerif.Val.Num
 import JaqVerif.Val.Order
 import JaqVerif.Val.Utf8
-import JaqVerif.Val.Arith
